@@ -2,6 +2,11 @@
 
 package file
 
+import (
+	"errors"
+	"go/ast"
+)
+
 // C07: running the injector on a file it has already processed changes nothing.
 
 // merge level: merging the comment's items into the already merged literal is the identity
@@ -315,4 +320,72 @@ func H_C07_long_lines() {
 	out2, err := vRunInjector("p.go", out1, f2)
 	vAssert(err == nil && out2 == want, "C07 long lines: the second run changes nothing")
 	vReach("end")
+}
+
+// an injected value with a back quote (a regular expression or a message quoting code). What the first run
+// writes either no longer parses (a raw literal cannot hold a back quote: later runs must leave the file alone)
+// or parses with the literal the injector chose; either way the second and third run change nothing. The
+// parse result of each later run is derived from the previous run's output the way go/parser reads it
+// (the native replay runs the real parser on the same bytes).
+func H_C07_backquote_value() {
+	val := []string{"a`b", "re='^`[a-z]+`$'", "`", "x` json:\"y"}[vndChoice("val", 4)]
+	fields := []vField{{name: "X", typ: "string", hasTag: true, tag: "protobuf:\"bytes,1\" json:\"x\"", comment: "// @tag valid:\"" + val + "\""}}
+	src, f := vBuildSource("", []vStructSrc{{name: "A", fields: fields}}, "var Last = 1\n")
+	out, err := vRunInjector("p.go", src, f)
+	vAssert(err == nil, "C07 back quote: first run")
+	first := out
+	for run := 2; run <= 3; run++ {
+		// the literal as it stands in the file now
+		a := vIndexStr(out, "X string ") + len("X string ")
+		b := vIndexStr(out, " // @tag")
+		vAssert(a >= len("X string ") && b > a, "C07 back quote: the field line is still there")
+		if !(a >= len("X string ") && b > a) {
+			return
+		}
+		lit := out[a:b]
+		parses := true
+		if lit[0] == '`' {
+			for i := 1; i < len(lit)-1; i++ {
+				if lit[i] == '`' {
+					parses = false // the raw literal ends early: syntax error
+				}
+			}
+		}
+		var next string
+		if !parses {
+			vFSPut("p.go", out)
+			vParseResult("p.go", nil, errors.New("syntax error: unexpected literal"))
+			if areas, perr := ParseFile(vFSPath("p.go")); perr == nil { // what the command does: parse, and write only then
+				_ = WriteFile(vFSPath("p.go"), areas)
+			}
+			next, _ = vFSGet("p.go")
+		} else {
+			// same layout, the tag literal replaced by lit (positions depend on lengths only)
+			pad := make([]byte, len(lit)-2)
+			for i := range pad {
+				pad[i] = 'p'
+			}
+			fs := []vField{{name: "X", typ: "string", hasTag: true, tag: string(pad), comment: "// @tag valid:\"" + val + "\""}}
+			_, f2 := vBuildSource("", []vStructSrc{{name: "A", fields: fs}}, "var Last = 1\n")
+			vSetFirstTag(f2, lit)
+			next, err = vRunInjector("p.go", out, f2)
+			vAssert(err == nil, "C07 back quote: later run")
+		}
+		vAssert(next == first, "C07 back quote: a later run leaves the file as the first run wrote it")
+		out = next
+	}
+	vReach("end")
+}
+
+func vIndexStr(s, sub string) int {
+	for i := 0; i+len(sub) <= len(s); i++ {
+		if s[i:i+len(sub)] == sub {
+			return i
+		}
+	}
+	return -1
+}
+
+func vSetFirstTag(f *ast.File, lit string) {
+	f.Decls[0].(*ast.GenDecl).Specs[0].(*ast.TypeSpec).Type.(*ast.StructType).Fields.List[0].Tag.Value = lit
 }
